@@ -20,9 +20,13 @@ open PyR GenR.Convert GenR.Constants Py
 
 /-! ## The pieces of `geo2grid`, written out once -/
 
-/-- automatic zone for a non-ISG projection: `int((lon − (c₀ − 1.5 w))/w)` -/
-noncomputable def autoZoneUtm (prj : Projection) (lon : ℝ) : ℝ :=
+/-- unclamped automatic zone for a non-ISG projection: `int((lon − (c₀ − 1.5 w))/w)` -/
+noncomputable def autoZoneRaw (prj : Projection) (lon : ℝ) : ℝ :=
   PyR.trunc ((lon - (prj.initialcm - PyR.dec 15 1 * prj.zonewidth)) / prj.zonewidth)
+
+/-- automatic zone for a non-ISG projection: the raw zone clamped by `min(·, int(360/w))` -/
+noncomputable def autoZoneUtm (prj : Projection) (lon : ℝ) : ℝ :=
+  PyR.pmin (autoZoneRaw prj lon) (PyR.trunc ((360 : ℝ) / prj.zonewidth))
 
 /-- automatic three-digit zone for the ISG projection -/
 noncomputable def autoZoneIsg (prj : Projection) (lon : ℝ) : ℝ :=
@@ -138,9 +142,9 @@ theorem geo2grid_unfold (lat lon zone : ℝ) (ell : Ellipsoid) (prj : Projection
     rfl
   · have hz := hz2 hp
     simp only [if_neg hp, if_neg hz, if_neg hlat, if_neg hlon, Except.bind]
-    unfold zoneOf cmOf tmY tmX tmXi tmEta xiSeries etaSeries xi1 eta1 eta1x confLat tanConfLat
+    unfold zoneOf autoZoneUtm autoZoneRaw cmOf tmY tmX tmXi tmEta xiSeries etaSeries xi1 eta1 eta1x
+      confLat tanConfLat
     simp only [if_neg hp]
-    rfl
 
 /-! ## 1. Ellipsoid constants -/
 
@@ -479,11 +483,15 @@ theorem trunc_of_nonneg {x : ℝ} (h : 0 ≤ x) : PyR.trunc x = (⌊x⌋ : ℝ) 
 theorem trunc_zero : PyR.trunc 0 = 0 := by
   rw [trunc_of_nonneg (le_refl _)]; simp
 
-/-- C01.9 for every non-ISG projection with zone width `w > 0` and every `lon ≥ c₀ − 1.5w`: the
-automatically selected zone is `⌊(lon − (c₀ − 1.5w))/w⌋` and the longitude lies within half a zone
-width of that zone's central meridian (`−w/2 ≤ lon − cm < w/2`). -/
+/-- C01.9 for every non-ISG projection with zone width `w > 0` and every `lon` with
+`c₀ − 1.5w ≤ lon < c₀ − 1.5w + w·(⌊360/w⌋ + 1)` (the range on which the clamp
+`min(zone, int(360/w))` is inactive): the automatically selected zone is `⌊(lon − (c₀ − 1.5w))/w⌋`
+and the longitude lies within half a zone width of that zone's central meridian
+(`−w/2 ≤ lon − cm < w/2`). -/
 theorem utm_auto_zone (prj : Projection) (lon : ℝ) (hp : prj.pyid ≠ isg.pyid)
-    (hw : 0 < prj.zonewidth) (hlo : prj.initialcm - 3 / 2 * prj.zonewidth ≤ lon) :
+    (hw : 0 < prj.zonewidth) (hlo : prj.initialcm - 3 / 2 * prj.zonewidth ≤ lon)
+    (hhi : lon < prj.initialcm - 3 / 2 * prj.zonewidth
+      + prj.zonewidth * ((⌊(360 : ℝ) / prj.zonewidth⌋ : ℝ) + 1)) :
     let z := autoZoneUtm prj lon
     z = (⌊(lon - (prj.initialcm - 3 / 2 * prj.zonewidth)) / prj.zonewidth⌋ : ℝ) ∧
     -(prj.zonewidth / 2) ≤ lon - cmOf prj z ∧ lon - cmOf prj z < prj.zonewidth / 2 ∧
@@ -493,11 +501,21 @@ theorem utm_auto_zone (prj : Projection) (lon : ℝ) (hp : prj.pyid ≠ isg.pyid
   set c₀ := prj.initialcm with hcdef
   set u := (lon - (c₀ - 3 / 2 * w)) / w with hu
   have hu0 : 0 ≤ u := div_nonneg (by linarith) hw.le
-  have hz : z = (⌊u⌋ : ℝ) := by
-    show autoZoneUtm prj lon = _
-    unfold autoZoneUtm
+  have h360 : (0 : ℝ) ≤ 360 / w := div_nonneg (by norm_num) hw.le
+  have huK : u < (((⌊(360 : ℝ) / w⌋ + 1 : ℤ)) : ℝ) := by
+    rw [hu, div_lt_iff₀ hw]; push_cast; linarith
+  have hle : (⌊u⌋ : ℝ) ≤ (⌊(360 : ℝ) / w⌋ : ℝ) := by
+    have h := Int.floor_lt.mpr huK
+    have : ⌊u⌋ ≤ ⌊(360 : ℝ) / w⌋ := by omega
+    exact_mod_cast this
+  have hraw : autoZoneRaw prj lon = (⌊u⌋ : ℝ) := by
+    unfold autoZoneRaw
     rw [dec_15_1]
     exact trunc_of_nonneg hu0
+  have hz : z = (⌊u⌋ : ℝ) := by
+    show autoZoneUtm prj lon = _
+    unfold autoZoneUtm PyR.pmin
+    rw [hraw, trunc_of_nonneg h360, if_neg (not_lt.mpr hle)]
   have hcm : cmOf prj z = (z * w + c₀) - w := by
     unfold cmOf; rw [if_neg hp]
   have hlon : lon = u * w + c₀ - 3 / 2 * w := by
@@ -511,11 +529,43 @@ theorem utm_auto_zone (prj : Projection) (lon : ℝ) (hp : prj.pyid ≠ isg.pyid
   refine ⟨hz, by rw [e]; linarith, by rw [e]; linarith, ?_⟩
   rw [abs_le, e]; constructor <;> linarith
 
+/-- beyond that range the clamp is active and the zone is `⌊360/w⌋` (the last zone). -/
+theorem utm_auto_zone_clamped (prj : Projection) (lon : ℝ) (hw : 0 < prj.zonewidth)
+    (hhi : prj.initialcm - 3 / 2 * prj.zonewidth
+      + prj.zonewidth * ((⌊(360 : ℝ) / prj.zonewidth⌋ : ℝ) + 1) ≤ lon) :
+    autoZoneUtm prj lon = (⌊(360 : ℝ) / prj.zonewidth⌋ : ℝ) := by
+  set w := prj.zonewidth with hwdef
+  set c₀ := prj.initialcm with hcdef
+  set u := (lon - (c₀ - 3 / 2 * w)) / w with hu
+  have h360 : (0 : ℝ) ≤ 360 / w := div_nonneg (by norm_num) hw.le
+  have hK0 : (0 : ℝ) ≤ (⌊(360 : ℝ) / w⌋ : ℝ) := by
+    have : (0 : ℤ) ≤ ⌊(360 : ℝ) / w⌋ := Int.floor_nonneg.mpr h360
+    exact_mod_cast this
+  have huK : (((⌊(360 : ℝ) / w⌋ + 1 : ℤ)) : ℝ) ≤ u := by
+    rw [hu, le_div_iff₀ hw]; push_cast; linarith
+  have hu0 : 0 ≤ u := le_trans (by push_cast; linarith) huK
+  have hlt : (⌊(360 : ℝ) / w⌋ : ℝ) < (⌊u⌋ : ℝ) := by
+    have h := Int.le_floor.mpr huK
+    have : ⌊(360 : ℝ) / w⌋ < ⌊u⌋ := by omega
+    exact_mod_cast this
+  have hraw : autoZoneRaw prj lon = (⌊u⌋ : ℝ) := by
+    unfold autoZoneRaw
+    rw [dec_15_1]
+    exact trunc_of_nonneg hu0
+  unfold autoZoneUtm PyR.pmin
+  rw [hraw, trunc_of_nonneg h360, if_pos hlt]
+
 example : utm.pyid ≠ isg.pyid ∧ 0 < utm.zonewidth ∧
-    utm.initialcm - 3 / 2 * utm.zonewidth ≤ (-180 : ℝ) := by
-  refine ⟨by decide, ?_, ?_⟩
+    utm.initialcm - 3 / 2 * utm.zonewidth ≤ (-180 : ℝ) ∧
+    (-180 : ℝ) < utm.initialcm - 3 / 2 * utm.zonewidth
+      + utm.zonewidth * ((⌊(360 : ℝ) / utm.zonewidth⌋ : ℝ) + 1) := by
+  refine ⟨by decide, ?_, ?_, ?_⟩
   · show (0 : ℝ) < 6; norm_num
   · show (-(177 : ℝ)) - 3 / 2 * 6 ≤ -180; norm_num
+  · show (-180 : ℝ) < (-(177 : ℝ)) - 3 / 2 * 6 + 6 * ((⌊(360 : ℝ) / 6⌋ : ℝ) + 1)
+    have : ⌊(360 : ℝ) / 6⌋ = 60 := by
+      rw [show (360 : ℝ) / 6 = ((60 : ℤ) : ℝ) by norm_num, Int.floor_intCast]
+    rw [this]; norm_num
 
 /-- … and when `zone = 0` is passed with a non-ISG projection that automatic zone is the zone
 `geo2grid` uses and returns. -/
@@ -528,28 +578,58 @@ theorem zoneOf_explicit (prj : Projection) (zone lon : ℝ) (hz : PyR.trunc zone
     zoneOf prj zone lon = PyR.trunc zone := by
   unfold zoneOf; rw [if_neg hz]
 
-theorem autoZoneUtm_utm (lon : ℝ) : autoZoneUtm utm lon = PyR.trunc ((lon + 186) / 6) := by
-  unfold autoZoneUtm
-  rw [dec_15_1]
-  show PyR.trunc ((lon - (-(177 : ℝ) - 3 / 2 * 6)) / 6) = _
-  congr 1; ring
+theorem floor_360_div_6 : ⌊(360 : ℝ) / 6⌋ = 60 := by
+  rw [show (360 : ℝ) / 6 = ((60 : ℤ) : ℝ) by norm_num, Int.floor_intCast]
 
-/-- C01.9 (UTM): for `lon ∈ [−180, 180)` the automatic UTM zone is in `1..60`. -/
-theorem utm_zone_range (lon : ℝ) (h1 : -180 ≤ lon) (h2 : lon < 180) :
+theorem autoZoneUtm_utm (lon : ℝ) :
+    autoZoneUtm utm lon = PyR.pmin (PyR.trunc ((lon + 186) / 6)) 60 := by
+  have h60 : PyR.trunc ((360 : ℝ) / 6) = 60 := by
+    rw [trunc_of_nonneg (by norm_num), floor_360_div_6]; norm_num
+  unfold autoZoneUtm autoZoneRaw
+  rw [dec_15_1]
+  show PyR.pmin (PyR.trunc ((lon - (-(177 : ℝ) - 3 / 2 * 6)) / 6)) (PyR.trunc ((360 : ℝ) / 6)) = _
+  rw [h60]
+  congr 2; ring
+
+/-- C01.9 (UTM): for `lon ∈ [−180, 180]` the automatic UTM zone is in `1..60`. -/
+theorem utm_zone_range (lon : ℝ) (h1 : -180 ≤ lon) (_h2 : lon ≤ 180) :
     1 ≤ autoZoneUtm utm lon ∧ autoZoneUtm utm lon ≤ 60 := by
   rw [autoZoneUtm_utm, trunc_of_nonneg (by linarith)]
-  constructor
-  · have : (1 : ℤ) ≤ ⌊(lon + 186) / 6⌋ := Int.le_floor.mpr (by push_cast; linarith)
+  have h : (1 : ℝ) ≤ (⌊(lon + 186) / 6⌋ : ℝ) := by
+    have : (1 : ℤ) ≤ ⌊(lon + 186) / 6⌋ := Int.le_floor.mpr (by push_cast; linarith)
     exact_mod_cast this
-  · have : ⌊(lon + 186) / 6⌋ < (61 : ℤ) := Int.floor_lt.mpr (by push_cast; linarith)
-    have : ⌊(lon + 186) / 6⌋ ≤ (60 : ℤ) := by omega
-    exact_mod_cast this
+  unfold PyR.pmin
+  split_ifs with hc
+  · norm_num
+  · exact ⟨h, not_lt.mp hc⟩
 
-/-- Observation: at `lon = 180` exactly (which passes validation) the formula selects zone 61. -/
-theorem utm_zone_at_180 : autoZoneUtm utm 180 = 61 := by
+/-- at `lon = 180` exactly the clamp `min(zone, int(360/w))` gives zone 60 (the raw formula
+would give 61). -/
+theorem utm_zone_at_180 : autoZoneUtm utm 180 = 60 := by
   rw [autoZoneUtm_utm, trunc_of_nonneg (by norm_num)]
   rw [show ((180 : ℝ) + 186) / 6 = ((61 : ℤ) : ℝ) by norm_num, Int.floor_intCast]
+  unfold PyR.pmin
   norm_num
+
+/-- C01.9 (UTM, closed interval): for every `lon ∈ [−180, 180]` the longitude is within 3° of the
+central meridian of the automatically selected zone. -/
+theorem utm_cm_close (lon : ℝ) (h1 : -180 ≤ lon) (h2 : lon ≤ 180) :
+    |lon - cmOf utm (autoZoneUtm utm lon)| ≤ 3 := by
+  rcases lt_or_eq_of_le h2 with h | h
+  · have := (utm_auto_zone utm lon (by decide) (by show (0 : ℝ) < 6; norm_num)
+      (by show (-(177 : ℝ)) - 3 / 2 * 6 ≤ lon; linarith)
+      (by
+        show lon < (-(177 : ℝ)) - 3 / 2 * 6 + 6 * ((⌊(360 : ℝ) / 6⌋ : ℝ) + 1)
+        rw [floor_360_div_6]; push_cast; linarith)).2.2.2
+    have hw : utm.zonewidth / 2 = 3 := by show (6 : ℝ) / 2 = 3; norm_num
+    rw [hw] at this
+    exact this
+  · subst h
+    rw [utm_zone_at_180]
+    unfold cmOf
+    rw [if_neg (by decide : utm.pyid ≠ isg.pyid)]
+    show |(180 : ℝ) - ((60 * 6 + -(177 : ℝ)) - 6)| ≤ 3
+    norm_num
 
 /-- the ISG central-meridian formula uses the zone's leading two digits and last digit; on a zone
 `10·a + b` with integer `a` and digit `0 ≤ b ≤ 9` these are `a` and `b`. -/
@@ -726,32 +806,26 @@ theorem valid_utm_auto (lat lon : ℝ) (h1 : -80 ≤ lat) (h2 : lat ≤ 84) (h3 
   · rintro (h | h) <;> linarith
   · rintro (h | h) <;> linarith
 
-/-- Observation at the level of `geo2grid`: `lon = 180` is accepted and the returned zone is 61
-(outside 1..60). -/
+/-- at the level of `geo2grid`: `lon = 180` is accepted and the returned zone is 60. -/
 theorem geo2grid_utm_zone_at_180 (lat : ℝ) (ell : Ellipsoid) (h1 : -80 ≤ lat) (h2 : lat ≤ 84) :
-    ∃ r, geo2grid lat 180 0 ell utm = Except.ok r ∧ r.2.1 = 61 := by
+    ∃ r, geo2grid lat 180 0 ell utm = Except.ok r ∧ r.2.1 = 60 := by
   have hv := valid_utm_auto lat 180 h1 h2 (by norm_num) (le_refl _)
   refine ⟨_, geo2grid_unfold lat 180 0 ell utm hv, ?_⟩
-  show zoneOf utm 0 180 = 61
+  show zoneOf utm 0 180 = 60
   rw [zoneOf_auto utm 0 180 (by decide) trunc_zero, utm_zone_at_180]
 
-/-- … whereas for `lon ∈ [−180, 180)` the returned UTM zone is in 1..60 and the point is within
-3° of the central meridian used. -/
+/-- for every `lon ∈ [−180, 180]` (closed) the returned UTM zone is in 1..60 and the point is
+within 3° of the central meridian used. -/
 theorem geo2grid_utm_zone (lat lon : ℝ) (ell : Ellipsoid) (h1 : -80 ≤ lat) (h2 : lat ≤ 84)
-    (h3 : -180 ≤ lon) (h4 : lon < 180) :
+    (h3 : -180 ≤ lon) (h4 : lon ≤ 180) :
     ∃ r, geo2grid lat lon 0 ell utm = Except.ok r ∧ 1 ≤ r.2.1 ∧ r.2.1 ≤ 60 ∧
       |lon - cmOf utm r.2.1| ≤ 3 := by
-  have hv := valid_utm_auto lat lon h1 h2 h3 h4.le
+  have hv := valid_utm_auto lat lon h1 h2 h3 h4
   refine ⟨_, geo2grid_unfold lat lon 0 ell utm hv, ?_⟩
   show 1 ≤ zoneOf utm 0 lon ∧ zoneOf utm 0 lon ≤ 60 ∧ |lon - cmOf utm (zoneOf utm 0 lon)| ≤ 3
   rw [zoneOf_auto utm 0 lon (by decide) trunc_zero]
   obtain ⟨a, b⟩ := utm_zone_range lon h3 h4
-  refine ⟨a, b, ?_⟩
-  have := (utm_auto_zone utm lon (by decide) (by show (0 : ℝ) < 6; norm_num)
-    (by show (-(177 : ℝ)) - 3 / 2 * 6 ≤ lon; linarith)).2.2.2
-  have hw : utm.zonewidth / 2 = 3 := by show (6 : ℝ) / 2 = 3; norm_num
-  rw [hw] at this
-  exact this
+  exact ⟨a, b, utm_cm_close lon h3 h4⟩
 
 /-! ## 11. Rounding -/
 
